@@ -107,7 +107,9 @@ func c18Run(calls []c18Call) []string {
 	for a := 0; a < 65536; a++ {
 		before[a] = mem.Get(uint16(a))
 	}
-	cpu := z80.CPU{Memory: mem, IO: io, BreakPoints: map[uint16]struct{}{}}
+	// deterministic watchdog: the longest legitimate run (a 4096-byte string) needs < 10^5 accesses
+	wd := &countMem{m: mem, limit: 2000000}
+	cpu := z80.CPU{Memory: wd, IO: io, BreakPoints: map[uint16]struct{}{}}
 	cpu.PC = tinycpm.Start
 	const sp0 = 0xF000
 	cpu.SP = sp0
@@ -119,6 +121,13 @@ func c18Run(calls []c18Call) []string {
 	for guardN := 0; guardN < len(bps)+2; guardN++ {
 		var err error
 		if p := guard(func() { err = cpu.Run(bgCtx) }); p != nil {
+			if wp, ok := p.(watchdogPanic); ok {
+				o := out.Bytes()
+				if len(o) > 32 {
+					o = o[:32]
+				}
+				return []string{fmt.Sprintf("the run did not come back (deterministic watchdog after %d memory accesses; PC=%04X, %d bytes printed so far: % X...)", wp.n, cpu.PC, out.Len(), o)}
+			}
 			return []string{fmt.Sprintf("panic: %v", p)}
 		}
 		if err == z80.ErrBreakPoint {
